@@ -287,6 +287,21 @@ CLAUSES = [
                 "available than asked for, or a ragged tail",
            examples={"quick": 2500, "thorough": 60000},
            shards={"quick": 4, "thorough": 16}),
+    Clause("fuzz-decode", check_bytes,
+           fuzz={"target": "c15", "runs": {"thorough": 400000},
+                 "max_len": 420,
+                 "corpus": [bytes([3]) + bytes(10) + bytes([0x80, 0, 1, 0]) +
+                            bytes(range(12)) + b"payload",
+                            bytes([1]) + bytes([0, 0, 0x87, 0xff, 0x21, 0xff,
+                                                1, 2, 0, 0, 5, 0, 9, 0,
+                                                1, 2, 3, 4]),
+                            bytes([0]) + bytes(14)]},
+           rule="Atheris (coverage-guided, thorough tier only): bytes -> "
+                "(n_args, datagram) -> differential against the reference "
+                "decoder and re-encode consistency; even shards start from "
+                "an empty corpus, odd shards from three valid datagrams",
+           examples={"quick": 0, "thorough": 0},
+           shards={"quick": 1, "thorough": 4}),
     Clause("field-sweep", check_fields, enumerate=enum_fields,
            exhaustive=True,
            rule="every value of every header field up to 16 bits wide (and "
